@@ -442,7 +442,7 @@ fn combinations<T>(a: Sequence<T>, k: int)->Sequence<Sequence<T>>{
 }
 
 fn combinations_with_replacement<T>(a: Sequence<T>, k: int)->Sequence<Sequence<T>>{
-    let len = binom(a.len()+k-1, k);
+    let len = if(k == 0, 1, binom(a.len()+k-1, k));
     range(len).map((idx: int)->{a.combination_with_replacement(idx, k)})
 }
 
